@@ -33,7 +33,9 @@ _INFO = {}
 
 CX_ONLY = ['child_attrs(x)', 'child_attrs(n1)', 'child_attrs(n0)', 'child_attrs_all', 'child_attrs_all+n1', 'child_attrs_noexc', 'subclass', 'append_field', 'insert_field',
            'customize(type_name)']
-POOL_SIZE = {'full': 8, 'cx': 2, 'prim': 4}
+POOL_SIZE = {'full': 8, 'cx': 2, 'prim': 4, 'mix': 3}
+MIX_OPS = ['mix-in(first)', 'mix-in(both)', 'subclass', 'customize(min_occurs=1)', 'Array(T)', 'append_field']
+_CUR = {'mixins': ()}
 CX_OPS = ['customize(min_occurs=1)', 'customize(sub_name)', 'child_attrs(x)', 'child_attrs(n1)', 'child_attrs(n0)', 'child_attrs_all', 'child_attrs_all+n1',
           'child_attrs_noexc', 'subclass', 'append_field', 'insert_field']
 
@@ -57,6 +59,12 @@ def fresh_pool(cfg='full'):
     B = ComplexModelMeta('B', (A,), {'__namespace__': 'urn:vf:c15', '_type_info': [('y', Integer)]})
     if cfg == 'cx':
         return [('A', A), ('B', B)]
+    if cfg == 'mix':
+        # two mixin classes and a plain class: classes are also composed from mixins
+        M1 = ComplexModelMeta('M1', (ComplexModel,), {'__namespace__': 'urn:vf:c15', '__mixin__': True, '_type_info': [('m1', Integer)]})
+        M2 = ComplexModelMeta('M2', (ComplexModel,), {'__namespace__': 'urn:vf:c15', '__mixin__': True, '_type_info': [('m2', Unicode)]})
+        _CUR['mixins'] = (M1, M2)
+        return [('M1', M1), ('M2', M2), ('A', A)]
     if cfg == 'prim':
         return [('Unicode', Unicode), ('Integer', Integer), ('Decimal', Decimal), ('ByteArray', ByteArray)]
     return [('Unicode', Unicode), ('Integer', Integer), ('A', A), ('B', B), ('Array(A)', Array(A)), ('Array(Integer)', Array(Integer)),
@@ -88,8 +96,10 @@ def operations(tier, cfg='full'):
     if cfg == 'cx':
         return [o for o in operations('thorough') if o['id'] in CX_OPS]
     if cfg == 'prim':
-        return [o for o in operations('thorough') if o['id'] not in CX_ONLY]
-    from spyne.model.complex import Array, Iterable, Mandatory, ComplexModelMeta
+        return [o for o in operations('thorough') if o['id'] not in CX_ONLY and not o['id'].startswith('mix-in')]
+    if cfg == 'mix':
+        return [o for o in operations('thorough') if o['id'] in MIX_OPS]
+    from spyne.model.complex import Array, Iterable, Mandatory, ComplexModelMeta, ComplexModel
     from spyne.model.primitive import Integer, Unicode
     ops = []
 
@@ -126,6 +136,12 @@ def operations(tier, cfg='full'):
     op('Mandatory(T)', lambda m: True, lambda m: Mandatory(m), None)
     op('subclass', lambda m: is_complex(m) and getattr(m, '__orig__', None) is None,   # (documented: no inheriting from a customized class)
        lambda m: ComplexModelMeta('Sub%d%s' % (_next_sub(), m.__name__), (m,), {'__namespace__': 'urn:vf:c15', '_type_info': [('sub_f', Integer)]}), None)
+    # a new class composed from the mixin it is applied to alone / together with the other mixins of the pool
+    def is_mixin(m):
+        return is_complex(m) and m.__dict__.get('__mixin__', False) is True and m in _CUR['mixins']
+    op('mix-in(first)', is_mixin, lambda m: ComplexModelMeta('Mix%d' % _next_sub(), (m, ComplexModel), {'__namespace__': 'urn:vf:c15', '_type_info': [('own', Integer)]}), None)
+    op('mix-in(both)', is_mixin, lambda m: ComplexModelMeta('Mix%d' % _next_sub(), tuple([m] + [x for x in _CUR['mixins'] if x is not m] + [ComplexModel]),
+                                                             {'__namespace__': 'urn:vf:c15', '_type_info': [('own', Integer)]}), None)
     op('append_field', lambda m: is_complex(m) and 'n1' not in m.get_flat_type_info(m), lambda m: (m.append_field('n1', Integer), m)[1], None, kind='evolve')
     op('insert_field', lambda m: is_complex(m) and 'n0' not in m.get_flat_type_info(m), lambda m: (m.insert_field(0, 'n0', Unicode), m)[1], None, kind='evolve')
     if tier == 'thorough':
@@ -386,6 +402,7 @@ def shards(tier):
     pool depth 4, primitives-only pool depth 3 (a full-pool search to depth 3 is ~1.4 million transitions: more than an hour)"""
     out = [{'kind': 'bfs', 'prefix': [fs], 'depth': 2, 'tier': tier} for fs in first_steps(tier)]
     out += [{'kind': 'bfs', 'prefix': [fs], 'depth': 3 if tier == 'quick' else 4, 'tier': tier, 'cfg': 'cx'} for fs in first_steps(tier, 'cx')]
+    out += [{'kind': 'bfs', 'prefix': [fs], 'depth': 3, 'tier': tier, 'cfg': 'mix'} for fs in first_steps(tier, 'mix')]
     if tier == 'thorough':
         out += [{'kind': 'bfs', 'prefix': [fs], 'depth': 3, 'tier': tier, 'cfg': 'prim'} for fs in first_steps(tier, 'prim')]
     for seed in ('1', '7', '1234'):
